@@ -346,7 +346,7 @@ theorem J_deep_distance {cfg : DCfg} (hp : Diff.Plain cfg) (al : Align) (hashOf 
   have ha1 := roughLen_pos cfg.ignorePrivate a
   have hb1 := roughLen_pos cfg.ignorePrivate b
   unfold deepDistance
-  rw [J_deepDiff hp al hashOf a b ja jb, h1, h2]
+  rw [J_deepDiff hp al hashOf a b ja jb, J_diffUnmerged hp al hashOf a b ja jb, h1, h2]
   exact ⟨hb, by simp only; omega⟩
 
 end Dist
